@@ -10,6 +10,7 @@ the private key cannot produce an answer that decrypts under the temporary key")
 `no_valid_answer_no_success` states exactly where that assumption would enter.
 -/
 import TdModel.Lemmas.C10
+import TdModel.Lemmas.C10Prog
 
 namespace TdModel.C09
 open TdModel
@@ -181,6 +182,46 @@ theorem no_valid_answer_no_success {Ct} (P : XP Ct) (cfg : CCfg) (t : CTape) (ms
   have := hno t.nonce sn ans (by rw [hms]; simp)
   rw [this] at hdec
   simp at hdec
+
+/-- The client these theorems are about *is* the source: interpreting the statement list
+regenerated from `ClientExchange.Run` (order of receives, guards and sends; the two operands of every
+`!=`; the argument lists of `DecomposePQ`, `DecryptExchangeAnswer`, `CheckDH`, `CheckDHParams`; the
+expression stored in every field of the three requests and of the two inner-data objects; the error
+of every exit; the branches of the type switches) with the name bindings of
+TdModel/Model/C10Prog.lean gives exactly the step function of the model, on every state and message. -/
+theorem program_is_model {Ct} (P : XP Ct) (cfg : CCfg) (t : CTape) (s : CState) (m : Msg Ct) :
+    cstepI P cfg t s m = cstep P cfg t s m := cstepI_eq P cfg t s m
+
+theorem program_run_is_model {Ct} (P : XP Ct) (cfg : CCfg) (t : CTape) (s : CState) (ms : List (Msg Ct)) :
+    crunI P cfg t s ms = crun P cfg t s ms := crunI_eq P cfg t ms s
+
+/-- … the program opens with the nonce draw and `req_pq_multi{Nonce: nonce}`, and its three receives
+are `readUnencrypted(&res)`, `tryRead`, `tryRead`. -/
+theorem program_opening : initOK Facts.C10.clientProgram Facts.C10.clientLiterals = true := init_ok
+
+/-- … and the locals the rows mention are defined as the name bindings assume. -/
+theorem client_defs_are :
+    Facts.C10.clientDefs = [
+      ("nonce", "crypto.RandInt128(c.rand)"),
+      ("serverNonce", "res.ServerNonce"),
+      ("pq", "big.NewInt(0).SetBytes(res.Pq)"),
+      ("pqMax", "big.NewInt(0).Exp(big.NewInt(2), big.NewInt(63), nil)"),
+      ("pBytes", "p.Bytes()"),
+      ("qBytes", "q.Bytes()"),
+      ("newNonce", "crypto.RandInt256(c.rand)"),
+      ("key", "crypto.TempAESKeys(newNonce.BigInt(), serverNonce.BigInt())"),
+      ("dhPrime", "big.NewInt(0).SetBytes(innerData.DhPrime)"),
+      ("g", "big.NewInt(int64(innerData.G))"),
+      ("gA", "big.NewInt(0).SetBytes(innerData.GA)"),
+      ("randMax", "big.NewInt(0).SetBit(big.NewInt(0), crypto.RSAKeyBits, 1)"),
+      ("bParam", "rand.Int(c.rand, randMax)"),
+      ("gB", "big.NewInt(0).Exp(g, bParam, dhPrime)"),
+      ("authKey", "big.NewInt(0).Exp(gA, bParam, dhPrime)"),
+      ("nonceHash1", "crypto.NonceHash1(newNonce, key)"),
+      ("serverSalt", "crypto.ServerSalt(newNonce, v.ServerNonce)"),
+      ("authKeyID", "key.ID()"),
+      ("sessionID", "crypto.NewSessionID(c.rand)")] := by
+  rfl
 
 /-- The checks the theorems above are about are the ones in the source, in this order
 (regenerated from `ClientExchange.Run` on every run). -/
